@@ -20,9 +20,9 @@
   Repaired in /repo and followed here: F-C09a (`is_coding` of variant collections, 88921fc), F-C09b (sequence-less
   parent, 996fc35), F-C09c (end clamp), F-C08a (`VariantInterval.from_dict` passes the parent on, 81459d6).
   `subsetParentBefore` keeps `_subset_parent` as it was before the repairs of F-C09b / F-C09c (regression witnesses).
-  Still as coded (finding F-C09d): `_subset_parent` clamps against the collection's BOUNDS
-  (`self.chromosome_location`) while it converts positions on the collection's LOCATED range (bounds ∩ chunk), so a
-  collection whose bounds exceed its sequence raises InvalidPositionException for ranges touching the excess.
+  F-C09d (clamps against the BOUNDS, conversion on the LOCATED range bounds ∩ chunk → InvalidPositionException when
+  the bounds exceed the sequence) is repaired in /repo 7f0e193 and followed here; `subsetParentBeforeD` keeps the
+  old `_subset_parent` for the regression witness.
 
   Modelled domain (the harness generates exactly this):
     * all members were built on the collection's own parent (`strict_parent_compare` never fails);
@@ -223,6 +223,28 @@ def located (par : Par) (bs be : Int) : Option (Int × Int × List Char) :=
       else none
   | _ => none
 
+/-- `_subset_parent(start, end)` as it was BEFORE the repair of F-C09d (/repo 7f0e193): the clamps compared with
+    `self.chromosome_location` = the BOUNDS `[bs, be)` (and only when chunk-relative) while the positions were
+    converted on the located range `[A, B)` — kept for the regression witness only -/
+def subsetParentBeforeD (src : Source) (start stop : Int) : QR RPar := do
+  match src.par with
+  | .none => pure .none
+  | .noseq => if start = stop then pure .none else pure .noseq
+  | par =>
+    let (bs, be) ← needBounds src
+    match located par bs be with
+    | none => pure .none
+    | some (A, B, ext) =>
+      if start = stop then pure .none
+      else if start = bs ∧ stop = be then pure par.toRPar
+      else
+        let chunkRel : Bool := par.isChunk
+        let start' := if chunkRel = true ∧ start < bs then bs else start
+        let crs ← p2r A B start'
+        let stop' := if chunkRel = true ∧ stop > be then be else stop
+        let r ← p2r A B (stop' - 1)
+        mkChunk start' stop' (slice ext crs (r + 1))
+
 /-- `_subset_parent(start, end)` -/
 def subsetParent (src : Source) (start stop : Int) : QR RPar := do
   match src.par with
@@ -238,24 +260,27 @@ def subsetParent (src : Source) (start stop : Int) : QR RPar := do
       if start = stop then pure .none
       else if start = bs ∧ stop = be then pure par.toRPar   -- "we are not actually subsetting at all"
       else
-        let chunkRel : Bool := par.isChunk                 -- `self.is_chunk_relative`
-        -- the clamps compare with `self.chromosome_location` = the BOUNDS [bs, be) …
-        let start' := if chunkRel = true ∧ start < bs then bs else start
-        -- … while `chrom_ancestor` = the located range [A, B)
-        let crs ← p2r A B start'
-        let stop' := if chunkRel = true ∧ stop > be then be else stop
-        -- `end` is exclusive: the last included position is converted
-        let r ← p2r A B (stop' - 1)
-        mkChunk start' stop' (slice ext crs (r + 1))
+        -- clamp to the stretch the collection has sequence for: `chrom_ancestor` = the located range [A, B)
+        let start' := if start < A then A else start
+        let stop' := if stop > B then B else stop
+        if start' ≥ stop' then pure .none                   -- nothing of the requested interval lies on the sequence
+        else
+          let crs ← p2r A B start'
+          -- `end` is exclusive: the last included position is converted
+          let r ← p2r A B (stop' - 1)
+          mkChunk start' stop' (slice ext crs (r + 1))
 
-/-- `self.chunk_relative_location.parent and self.chunk_relative_location.parent.sequence` -/
-def hasLocSeq (src : Source) : QR Bool :=
+/-- `self.lift_over_to_first_ancestor_of_type(CHROMOSOME)` when `self.chunk_relative_location.parent and
+    self.chunk_relative_location.parent.sequence`: the stretch the collection has sequence for -/
+def seqRange (src : Source) : QR (Option (Int × Int)) :=
   match src.par with
-  | .whole _ => pure true
+  | .whole seq => do
+      let (bs, be) ← needBounds src
+      pure ((located (.whole seq) bs be).map fun t => (t.1, t.2.1))
   | .chunk cs seq => do
       let (bs, be) ← needBounds src
-      pure (located (.chunk cs seq) bs be).isSome
-  | _ => pure false
+      pure ((located (.chunk cs seq) bs be).map fun t => (t.1, t.2.1))
+  | _ => pure none
 
 /-- spliced sequence of a member rebuilt by `from_dict` on the result's parent
     (`liftover_location_to_seq_chunk_parent`, then `extract_sequence`) -/
@@ -324,16 +349,21 @@ def validate (src : Source) (qs qe : Option Int) : QR (Int × Int) := do
 
 def queryByPosition (src : Source) (q : PosQ) : QR Result := do
   checkSource src
-  let (start, stop) ← validate src q.s q.e
-  let (bs, be) ← needBounds src
-  let kept ← queryKept src start stop q.cw q.codingOnly
+  let (qs, qe) ← validate src q.s q.e
+  let kept ← queryKept src qs qe q.cw q.codingOnly
+  -- `query_start, query_end = start, end`, then the expansion loop
   let (start, stop) :=
     if q.expand ∧ ¬ q.cw then
-      expandBounds start stop (kept.filter (fun c => c.kind = .feat) ++ kept.filter (fun c => c.kind = .gene))
-    else (start, stop)
-  -- `if self.chunk_relative_location.parent and self.chunk_relative_location.parent.sequence:`
-  let locSeq ← hasLocSeq src
-  if locSeq = true ∧ (start < bs ∨ stop > be) then throw (.doc .InvalidQuery)
+      expandBounds qs qe (kept.filter (fun c => c.kind = .feat) ++ kept.filter (fun c => c.kind = .gene))
+    else (qs, qe)
+  -- `if self.chunk_relative_location.parent and self.chunk_relative_location.parent.sequence:` refuse an
+  -- expansion (a bound moved) that leaves the stretch the collection has sequence for
+  let sr ← seqRange src
+  let refuse : Bool :=
+    match sr with
+    | some (A, B) => decide ((start < qs ∨ stop > qe) ∧ (start < A ∨ stop > B))
+    | none => false
+  if refuse then throw (.doc .InvalidQuery)
   else buildNew src kept start stop
 
 /-! ### id / GUID queries -/
